@@ -31,15 +31,24 @@ Definition zns (l : list Z) : list nat := map zn l.
     rows in storage order), RI verdict of the harness's own checker *)
 Definition obs := (Z * list (Z * Z * list (list Z)) * bool)%type.
 
+(** a step of which only the result code is observed (the engine's state is outside the model
+    afterwards: refused cyclic ADD FOREIGN KEY); such a step ends its history *)
+Definition code_only (tabs : list (Z * Z * list (list Z))) : bool :=
+  match tabs with
+  | [(n, _, _)] => n =? -1
+  | _ => false
+  end.
+
 Definition obs_ok (d : db) (r : result) (o : obs) : bool :=
   let '(code, tabs, ri) := o in
   (result_code r =? code)
-  && Nat.eqb (length d) (length tabs)
+  && (code_only tabs ||
+  Nat.eqb (length d) (length tabs)
   && forallb (fun p => let '(n, nf, rows) := p in
                        match get_table d (zn n) with
                        | Some t => Nat.eqb (length (t_fks t)) (zn nf) && rows_eqb (t_rows t) (drs rows)
                        | None => false end) tabs
-  && Bool.eqb (ri_b d) ri.
+  && Bool.eqb (ri_b d) ri).
 
 (** one step of a history: the catalog order (`list_tables()`) before the statement, the
     statement, the observation after it *)
@@ -69,6 +78,7 @@ Definition c12_mismatches (hs : list history) : list Z :=
 Definition TB (n nf : Z) (rows : list (list Z)) : (Z * Z * list (list Z)) := (n, nf, rows).
 Definition HS (ord : list Z) (s : stmt) (code : Z) (tabs : list (Z * Z * list (list Z))) (ri : bool) : hstep :=
   (ord, s, (code, tabs, ri)).
+Definition HSC (ord : list Z) (s : stmt) (code : Z) : hstep := (ord, s, (code, [(-1, -1, [])], true)).
 Definition HI (base : Z) (d0 : db) (steps : list hstep) : history := (base, d0, steps).
 Definition AS (c : Z) (e : expr) : (Z * expr) := (c, e).
 Definition CD (nullable : bool) (default : Z) : (bool * Z) := (nullable, default).
